@@ -6,6 +6,7 @@ LEAN = os.path.join(VERIF, "lean")
 HARNESS = os.path.join(VERIF, "harness")
 CACHE = os.path.join(VERIF, ".cache")
 GV = os.path.join(CACHE, "target", "release", "gv")
+HOOK_RUSTFLAGS = "--cfg goml_verif"
 MODEL = os.path.join(LEAN, ".lake", "build", "bin", "gomlmodel")
 ALLOWED_AXIOMS = {"propext", "Classical.choice", "Quot.sound"}
 FORBIDDEN = re.compile(r"\bsorry\b|\badmit\b|^axiom |native_decide|bv_decide|implemented_by|\bunsafe |maxHeartbeats 0", re.M)
@@ -25,8 +26,8 @@ class Lock:
         self.f.close()
 
 
-def sh(cmd, cwd=None, timeout=None, input=None):
-    p = subprocess.run(cmd, cwd=cwd, env=ENV, stdout=subprocess.PIPE, stderr=subprocess.STDOUT,
+def sh(cmd, cwd=None, timeout=None, input=None, env=None):
+    p = subprocess.run(cmd, cwd=cwd, env=env or ENV, stdout=subprocess.PIPE, stderr=subprocess.STDOUT,
                        text=True, timeout=timeout, input=input)
     return p.returncode, p.stdout
 
@@ -173,7 +174,9 @@ class Ctx:
     def build_harness(self):
         with Lock("cargo"):
             lock_src = "/repo/Cargo.lock"
-            rc, out = sh(["cargo", "build", "--release", "--offline"], cwd=HARNESS, timeout=3000)
+            # the harness drives cfg-guarded verification hooks of goml (`#[cfg(goml_verif)]`, see MANIFEST.hooks)
+            rc, out = sh(["cargo", "build", "--release", "--offline"], cwd=HARNESS, timeout=3000,
+                         env=dict(ENV, RUSTFLAGS=HOOK_RUSTFLAGS))
         if rc != 0:
             self.broken_ties.append(("harness build", out[-3000:]))
             return False
